@@ -1229,6 +1229,26 @@ class _Temp:
             return self.path(astx.receiver(e))
         return None
 
+    def stack_of(self, e, key, at, depth=0):
+        """Cache path C if e denotes the per-option stack `C[key]`, directly or through a local alias whose every
+        definition is `x = C[key]`, `x = C.setdefault(key, [])` or the chained `C[key] = x = []`; else None."""
+        cp = self.cache_item(e, key)
+        if cp is not None or not isinstance(e, ast.Name) or depth > 3:
+            return cp
+        paths = set()
+        for d in self.rd.defs(at, e.id):
+            a = d.ast if d.kind == 'stmt' else None
+            if not isinstance(a, ast.Assign) or not any(isinstance(t, ast.Name) and t.id == e.id for t in a.targets):
+                return None
+            cp = self.stack_of(a.value, key, d, depth + 1)
+            if cp is None and isinstance(a.value, ast.List) and not a.value.elts:
+                others = {self.cache_item(t, key) for t in a.targets if isinstance(t, ast.Subscript)}
+                cp = next(iter(others)) if len(others) == 1 else None
+            if cp is None:
+                return None
+            paths.add(cp)
+        return next(iter(paths)) if len(paths) == 1 else None
+
     def temp_value(self, e, key, val, at=None):
         """True if e denotes the requested temporary value of option `key`: the items() value var or kwargs[key]
         (possibly through a local that holds it)."""
@@ -1316,7 +1336,7 @@ def _analyse_temporary(repo):
     L1 = setup[0]
     k1, v1 = T.key_of_iter(L1)
     body1 = T.body_nodes(L1)
-    sets, saves, reads, inits = [], [], [], []
+    sets, saves, reads, inits, unresolved = [], [], [], [], []
     for n in body1:
         a = n.ast
         if n.kind != 'stmt':
@@ -1324,14 +1344,17 @@ def _analyse_temporary(repo):
         if isinstance(a, ast.Assign) and len(a.targets) == 1 and T.self_item(a.targets[0], k1):
             sets.append(n)
             continue
-        if isinstance(a, ast.Assign) and len(a.targets) == 1 and isinstance(a.value, ast.List) and \
-                not a.value.elts and isinstance(a.targets[0], ast.Subscript) and T.cache_item(a.targets[0], k1):
-            inits.append(n)
+        if isinstance(a, ast.Assign) and isinstance(a.value, ast.List) and not a.value.elts and \
+                any(isinstance(t, ast.Subscript) and T.cache_item(t, k1) for t in a.targets) and \
+                all(isinstance(t, ast.Name) or isinstance(t, ast.Subscript) and T.cache_item(t, k1)
+                    for t in a.targets):
+            inits.append(n)      # `C[k] = []`, possibly chained with a local alias: `C[k] = stack = []`
             continue
         for c in n.calls():
             if astx.callee_attr(c) in ('append',) and len(c.args) == 1:
-                cp = T.cache_item(astx.receiver(c), k1)
+                cp = T.stack_of(astx.receiver(c), k1, n)
                 if cp is None:
+                    unresolved.append(n)
                     continue
                 saves.append((n, c, cp))
         if any(T.self_item(w, k1) and isinstance(w.ctx, ast.Load) for e in n.exprs() for w in astx.walk(e)):
@@ -1361,8 +1384,9 @@ def _analyse_temporary(repo):
                         rec['wrong_arg'].append(n)
                 elif astx.callee_attr(c) not in ('copy', 'index', 'count', '__len__'):
                     rec['odd'].append(n.ast)
+    unresolved = [n for n in unresolved if not any(n in rec['appends'] for rec in records.values())]
     res.update(L1=L1, k1=k1, v1=v1, sets=sets, saves=saves, reads=reads, inits=inits, restore=restore,
-               records=records)
+               records=records, unresolved=unresolved)
     return res
 
 
@@ -1393,6 +1417,9 @@ def temporary(repo, out):
         out.bad(fn, x.ast if x else L1, f'setup does not assign self[{k1}] = {v1s} for the requested options',
                 key='setup-set')
         ok1 = False
+    if not saves and R['unresolved']:
+        out.unsure(fn, R['unresolved'][0].ast, 'cannot tell whether this append pushes onto the per-option stack')
+        return
     if not saves:
         out.bad(fn, L1, 'the current value is never pushed onto the cache before it is overwritten',
                 key='save-every-option')
@@ -2270,4 +2297,47 @@ selftest(
            'C27.guard'),
     Mutant('early-return-swapped-pair', OD, _HD, _HD_EARLY.replace('return alias, alias_meta', 'return alias_meta, alias'),
            'C27.guard'),
+)
+
+
+# ---- third robustness round (benign/C27_b3_2): stack reached through a local bound in both branches of the
+# presence test (`C[k] = stack = []` chained in the absent branch), restored value through a local
+_TMP_STACK_ALIAS = ("        switched = []\n"
+                    "        try:\n"
+                    "            for option in kwargs:\n"
+                    "                prev_val = self[option]\n"
+                    "                if option in self._context_cache:\n"
+                    "                    saved_stack = self._context_cache[option]\n"
+                    "                else:\n"
+                    "                    self._context_cache[option] = saved_stack = []\n"
+                    "                saved_stack.append(prev_val)\n"
+                    "                switched.append(option)\n"
+                    "                self[option] = kwargs[option]\n"
+                    "            yield\n"
+                    "        finally:\n"
+                    "            for option in reversed(switched):\n"
+                    "                restored = self._context_cache[option].pop()\n"
+                    "                self[option] = restored\n"
+                    "                if not self._context_cache[option]:\n"
+                    "                    self._context_cache.pop(option)\n")
+
+selftest(
+    'C27',
+    Twin('twin-temporary-stack-alias-two-branches', OD, _TMP, _TMP_STACK_ALIAS),
+    Mutant('stack-alias-pushes-temp-value', OD, _TMP, _TMP_STACK_ALIAS.replace('.append(prev_val)', '.append(kwargs[option])'),
+           'C27.temporary'),
+    Mutant('stack-alias-init-when-present', OD, _TMP,
+           _TMP_STACK_ALIAS.replace('if option in self._context_cache:', 'if option not in self._context_cache:'),
+           'C27.temporary'),
+    Mutant('stack-alias-peek-no-pop', OD, _TMP,
+           _TMP_STACK_ALIAS.replace('restored = self._context_cache[option].pop()', 'restored = self._context_cache[option][-1]'),
+           'C27.temporary'),
+    Mutant('stack-alias-push-only-when-absent', OD, _TMP,
+           _TMP_STACK_ALIAS.replace("                saved_stack.append(prev_val)\n", "")
+           .replace("saved_stack = []\n", "saved_stack = []\n                    saved_stack.append(prev_val)\n"),
+           'C27.temporary'),
+    Mutant('stack-alias-set-before-read', OD, _TMP,
+           _TMP_STACK_ALIAS.replace("                prev_val = self[option]\n", "                self[option] = kwargs[option]\n                prev_val = self[option]\n")
+           .replace("                switched.append(option)\n                self[option] = kwargs[option]\n", "                switched.append(option)\n"),
+           'C27.temporary'),
 )
